@@ -30,5 +30,18 @@ CHECKS["C10"] = {"engine": "memo", "technique": "deterministic simulation: seede
                  "ref": "DESIGN.md section 5 (C10), section 3.3",
                  "text": "The six module-level memo tables are the only state the library shares between callers. Each run restores them to import-time content, drives 1-3 simulated caller threads through seeded request lists (all rule families, colliding and neighbouring sizes, Integrate.*, table-consuming removals, invalid sizes, failing integrands) under a seeded scheduler that may switch threads at every Python line of heavy.py/calculus.py, injects at most one asynchronous exception at the k-th line of a request, and judges every answered request plus a final sweep for exactness to the rule's order, equality with the answer in a pristine state, and closed forms of spline integrals.",
                  "note": _NOTE}
+_REF_TECH = 'deterministic simulation: seeded operation-and-fault histories on Curve objects, step-by-step refinement check against an exact B-spline reference model, shrinking and replay'
+CHECKS["C04"] = {"engine": "ref", "technique": _REF_TECH, "ref": "DESIGN.md section 5 (C04), section 4",
+                 "text": "knot_insert is judged as a state transition of a persistent curve inside seeded histories that also elevate, remove, reduce and clean (so insertion meets states no constructor call produces): valid requests must succeed, the knot vector must be the sorted multiset union, the curve must be the same function (exact piecewise-polynomial / cross-multiplied rational comparison against an independent Cox-de Boor model), invalid requests must be refused with ValueError and every refusal - including one caused by a failing user point type - must leave the curve unchanged.",
+                 "note": _NOTE}
+CHECKS["C05"] = {"engine": "ref", "technique": _REF_TECH, "ref": "DESIGN.md section 5 (C05), section 4",
+                 "text": "knot_remove steps are classified by the model (continuity analysis of the exact piecewise-polynomial form, or undo of an earlier insertion of the same history) and judged accordingly: exactly removable must succeed with zero deviation for every tolerance and an undo must restore the earlier state identically; otherwise refusal with ValueError (unchanged) or success within the exact deviation bound; tolerance=None must succeed and interpolate at the remaining knots.",
+                 "note": _NOTE + " Rational removal is a listed known finding (known_findings.json F-C05-rational-removal); polynomial curves are fully judged."}
+CHECKS["C06"] = {"engine": "ref", "technique": _REF_TECH, "ref": "DESIGN.md section 5 (C06), section 4",
+                 "text": "degree_increase / degree setter / degree_decrease steps inside seeded histories: elevation must be exact with every multiplicity raised by t; reduction is classified by the model (representable on the target vector, or undo of an earlier elevation) and must then be exact and restore the earlier state, else be refused with ValueError (unchanged) or stay within the deviation bound; invalid t refused.",
+                 "note": _NOTE + " Rational reduction is a listed known finding (F-C06-rational-reduction)."}
+CHECKS["C14"] = {"engine": "ref", "technique": _REF_TECH, "ref": "DESIGN.md section 5 (C14), section 4",
+                 "text": "clean is treated as the library's compaction pass: after seeded sequences of content-preserving refinements and refused requests, knot_clean / degree_clean / clean (in seeded order and repetition, tolerances 0 / default / 1e-12) must preserve the function, reach the model's unique minimal representation (degree and every multiplicity), be idempotent, and bring two differently refined twins of one function to identical knots and control points.",
+                 "note": _NOTE + " Rational cleaning is a listed known finding (F-C14-rational-clean); minimality is judged on polynomial curves in exact arithmetic."}
 PENDING = {k: "check under construction (planned engine, see DESIGN.md section 5); not claimed until it runs" for k in
-           ["C04", "C05", "C06", "C14", "C15"]}
+           ["C15"]}
